@@ -731,6 +731,7 @@ def pack_named_tuple(spec: ValueSpec) -> Expression:
                 type=member_type,
                 expression=f"{spec.expression}[{idx}]",
                 could_be_none=True,
+                owner=spec.type,
                 field_ctx=(
                     spec.field_ctx
                     if is_named_tuple(member_type)
